@@ -101,3 +101,17 @@ Definition blank_line (l : list tok) : Prop :=
 Inductive reach : list tok -> list tok -> Prop :=
 | reach_here ts : reach ts ts
 | reach_step ts blk r0 r : next_block (S (length ts)) ts = Some (blk, r0) -> reach r0 r -> reach ts r.
+
+(* ---------------------------------------------------------------- CRLF on tokens *)
+(* how a token of [lex s] and the corresponding token of [lex (crlf s)] are related: same kind;
+   a newline token is spelled CRLF (or stays LF when the CR went into the line comment in
+   front of it), a line comment may gain a final CR, a block comment has its inner line
+   endings converted, every other token is unchanged *)
+Definition crlf_tok_rel (t t' : tok) : Prop :=
+  kind t' = kind t /\
+  match kind t with
+  | KNewline => tstr t' = [13; 10] \/ tstr t' = [10]
+  | KLineComment => tstr t' = tstr t \/ tstr t' = tstr t ++ [13]
+  | KBlockComment => tstr t' = crlf (tstr t)
+  | _ => tstr t' = tstr t
+  end.
